@@ -10,14 +10,79 @@ import (
 	"go/types"
 )
 
+// SymSliceV is a slice of symbolic length whose elements are an uninterpreted function of the index.
 type SymSliceV struct {
-	Len *Term
+	Len  *Term   // BV64, >= 0 as a signed number
+	Arrs []*Term // one array (index BV64) per scalar leaf of the element type
+	Elem types.Type
 }
+
+func (ex *Exec) elemLeaves(t types.Type) []heapLeaf {
+	var out []heapLeaf
+	ex.flattenType(t, "e", &out)
+	return out
+}
+
+func (ex *Exec) newSymSlice(st *State, prefix string, elem types.Type) *SymSliceV {
+	ln := ex.ts.Fresh(prefix+".len", BVSort(64))
+	ex.assume(st, ex.ts.BVCmp(OpBVSle, ex.ts.BV(0, 64), ln))
+	sv := &SymSliceV{Len: ln, Elem: elem}
+	for _, lf := range ex.elemLeaves(elem) {
+		sv.Arrs = append(sv.Arrs, ex.ts.Fresh(prefix+"."+lf.name, ArraySort(refSort, lf.sort)))
+	}
+	return sv
+}
+
+// toSym converts a concrete-length slice into the array representation.
+func (ex *Exec) toSym(st *State, v Value, elem types.Type) *SymSliceV {
+	switch x := v.(type) {
+	case *SymSliceV:
+		return x
+	case *SliceV:
+		sv := &SymSliceV{Len: ex.ts.BV(uint64(x.Len), 64), Elem: elem}
+		leaves := ex.elemLeaves(elem)
+		for _, lf := range leaves {
+			sv.Arrs = append(sv.Arrs, ex.ts.ConstArray(ArraySort(refSort, lf.sort), ex.zeroTerm(lf.sort)))
+		}
+		if x.Len > 0 {
+			back := ex.load(st, x.Loc).(*ArrayV)
+			for i := 0; i < x.Len; i++ {
+				var ls []*Term
+				ex.flattenValue(back.Elems[x.Off+i], st, &ls)
+				for k := range sv.Arrs {
+					sv.Arrs[k] = ex.ts.Store(sv.Arrs[k], ex.ts.BV(uint64(i), 64), ls[k])
+				}
+			}
+		}
+		return sv
+	}
+	unsupported("slice of kind %T", v)
+	return nil
+}
+
 
 type AbstractIfaceV struct{}
 
+func (ex *Exec) mergeSym(c *Term, x, y *SymSliceV) Value {
+	r := &SymSliceV{Len: ex.ts.Ite(c, x.Len, y.Len), Elem: x.Elem}
+	for k := range x.Arrs {
+		r.Arrs = append(r.Arrs, ex.ts.Ite(c, x.Arrs[k], y.Arrs[k]))
+	}
+	return r
+}
+
 func (ex *Exec) mergeSlices(c *Term, x, y *SliceV) Value {
 	if x.Len != y.Len {
+		a, b := ex.curMergeA, ex.curMergeB
+		if a != nil && b != nil && (x.Loc != nil || y.Loc != nil) {
+			var et types.Type
+			if x.Loc != nil {
+				et = x.Loc.Typ.(*types.Array).Elem()
+			} else {
+				et = y.Loc.Typ.(*types.Array).Elem()
+			}
+			return ex.mergeSym(c, ex.toSym(a, x, et), ex.toSym(b, y, et))
+		}
 		unsupported("merge of slices of different length")
 	}
 	if x.Len == 0 {
@@ -47,12 +112,50 @@ type pendingLoc struct {
 
 
 func (ex *Exec) execRangeSym(s *ast.RangeStmt, st *State, label string, sv *SymSliceV) *Flow {
-	unsupported("range over symbolic slice at %s", ex.pos(s.Pos()))
-	return nil
+	_, invs, havoc, _ := ex.loopClauses(s)
+	if len(invs) == 0 {
+		unsupported("range over a slice of unknown length at %s needs a loop invariant", ex.pos(s.Pos()))
+	}
+	if s.Tok != token.DEFINE {
+		unsupported("range with assignment over symbolic slice at %s", ex.pos(s.Pos()))
+	}
+	// key/value variables exist before the cut so invariants may mention them
+	var kobj, vobj types.Object
+	if id, ok := s.Key.(*ast.Ident); ok && id.Name != "_" {
+		kobj = ex.info().Defs[id]
+		ex.declare(st, kobj, ex.ts.BV(0, 64))
+	}
+	if s.Value != nil {
+		if id, ok := s.Value.(*ast.Ident); ok && id.Name != "_" {
+			vobj = ex.info().Defs[id]
+			ex.declare(st, vobj, ex.zeroValue(vobj.Type()))
+		}
+	}
+	pre := func(bs *State) {
+		k := ex.ts.Fresh("range.idx", BVSort(64))
+		ex.assume(bs, ex.ts.And(ex.ts.BVCmp(OpBVSle, ex.ts.BV(0, 64), k), ex.ts.BVCmp(OpBVSlt, k, sv.Len)))
+		if kobj != nil {
+			bs.store[ex.cur().env.Lookup(kobj)] = k
+		}
+		if vobj != nil {
+			bs.store[ex.cur().env.Lookup(vobj)] = ex.symSliceElem(bs, sv, k)
+		}
+	}
+	return ex.execLoopInv(s, nil, s.Body, nil, st, label, invs, havoc, true, pre)
 }
 func (ex *Exec) symSliceIndex(st *State, sv *SymSliceV, idx *Term, p token.Pos) Value {
-	unsupported("index of symbolic slice")
-	return nil
+	ok := ex.ts.BVCmp(OpBVUlt, idx, sv.Len)
+	ex.assert(st, "safety.index", ok, p, "index below the slice length")
+	return ex.symSliceElem(st, sv, idx)
+}
+
+func (ex *Exec) symSliceElem(st *State, sv *SymSliceV, idx *Term) Value {
+	var leaves []*Term
+	for _, a := range sv.Arrs {
+		leaves = append(leaves, ex.ts.Select(a, idx))
+	}
+	pos := 0
+	return ex.buildValue(sv.Elem, leaves, &pos, st)
 }
 func (ex *Exec) symSliceSlice(st *State, sv *SymSliceV, e *ast.SliceExpr) Value {
 	unsupported("slice of symbolic slice")
@@ -63,16 +166,24 @@ func (ex *Exec) makeSymSlice(st *State, t *types.Slice, n *Term, p token.Pos) Va
 	return nil
 }
 func (ex *Exec) symAppend(st *State, b *SymSliceV, add []Value, p token.Pos) Value {
-	unsupported("append to symbolic slice")
-	return nil
+	r := &SymSliceV{Len: b.Len, Arrs: append([]*Term(nil), b.Arrs...), Elem: b.Elem}
+	for _, v := range add {
+		var ls []*Term
+		ex.flattenValue(v, st, &ls)
+		for k := range r.Arrs {
+			r.Arrs[k] = ex.ts.Store(r.Arrs[k], r.Len, ls[k])
+		}
+		r.Len = ex.ts.BVBin(OpBVAdd, r.Len, ex.ts.BV(1, 64))
+	}
+	ex.assumptions["slice lengths stay below 2^63 (append never overflows the length)"] = true
+	return r
 }
 func (ex *Exec) symAppendSlice(st *State, base Value, s *SymSliceV, t *types.Slice, p token.Pos) Value {
 	unsupported("append of symbolic slice")
 	return nil
 }
 func (ex *Exec) havocSymSlice(st *State, prefix string, t *types.Slice) Value {
-	unsupported("havoc of slice")
-	return nil
+	return ex.newSymSlice(st, prefix, t.Elem())
 }
 func (ex *Exec) stringToSlice(st *State, sv *StrV, t *types.Slice, p token.Pos) Value {
 	if sv.Concrete {
@@ -93,6 +204,11 @@ func (ex *Exec) stringToSlice(st *State, sv *StrV, t *types.Slice, p token.Pos) 
 			return &SliceV{Loc: l, Len: len(elems), Cap: len(elems)}
 		}
 	}
+	if b, ok := t.Elem().Underlying().(*types.Basic); ok && !sv.Concrete && (b.Kind() == types.Int32 || b.Kind() == types.Uint8) {
+		// arbitrary text: arbitrary length, arbitrary elements
+		ex.assumptions["[]rune(s)/[]byte(s) of an arbitrary string is an arbitrary slice (length and contents unconstrained)"] = true
+		return ex.newSymSlice(st, "runes", t.Elem())
+	}
 	unsupported("conversion of symbolic string to slice at %s", ex.pos(p))
 	return nil
 }
@@ -103,12 +219,29 @@ func (ex *Exec) callAbstractIface(r *AbstractIfaceV, f *FuncV, args []Value, st 
 	return nil
 }
 func (ex *Exec) callExternalMore(name string, f *FuncV, args []Value, st *State, site *ast.CallExpr) (Value, bool) {
+	ts := ex.ts
+	switch name {
+	case "strings.Split":
+		ex.assumptions["strings.Split returns at least one string; nothing else is assumed about its result"] = true
+		sv := ex.newSymSlice(st, "split", types.Typ[types.String])
+		ex.assume(st, ts.BVCmp(OpBVSle, ts.BV(1, 64), sv.Len))
+		return sv, true
+	case "strconv.Atoi":
+		ex.assumptions["strconv.Atoi returns an arbitrary int and an arbitrary error"] = true
+		return &TupleV{Vals: []Value{ts.Fresh("atoi", BVSort(64)), &OpaqueV{What: "error", IsNil: ts.Fresh("atoi.ok", BoolSort)}}}, true
+	case "strconv.Itoa":
+		return &StrV{T: ts.Fresh("itoa", IntSort)}, true
+	case "unicode.IsDigit", "unicode.IsLetter":
+		// uninterpreted predicates on runes: only what the code checks afterwards matters
+		ex.assumptions["unicode.IsDigit/IsLetter are uninterpreted predicates (non-ASCII digits and letters are not assumed away)"] = true
+		return ts.App("dep."+name, BoolSort, args[0].(*Term)), true
+	}
 	return nil, false
 }
 
 // execLoopInv cuts a loop at its invariant: assert on entry, havoc the variables the
 // body assigns, assume invariant and guard, run the body once, assert the invariant again.
-func (ex *Exec) execLoopInv(s ast.Stmt, cond ast.Expr, body *ast.BlockStmt, post ast.Stmt, st *State, label string, invs []*Clause, havoc []string) *Flow {
+func (ex *Exec) execLoopInv(s ast.Stmt, cond ast.Expr, body *ast.BlockStmt, post ast.Stmt, st *State, label string, invs []*Clause, havoc []string, nondet bool, pre func(bodySt *State)) *Flow {
 	out := &Flow{}
 	fi := ex.prog.LoopFunc[s]
 	// type-check invariant expressions at a position inside the loop body
@@ -213,6 +346,10 @@ func (ex *Exec) execLoopInv(s ast.Stmt, cond ast.Expr, body *ast.BlockStmt, post
 	if cond != nil {
 		c = ex.evalBool(cond, head)
 	}
+	if nondet {
+		// the loop may stop or continue at any head state (range over a symbolic slice)
+		c = ex.ts.Fresh("continue", BoolSort)
+	}
 	exit := head.fork(ex.ts.And(head.pc, ex.ts.Not(c)))
 	if len(useExprs) > 0 {
 		// lemma instances at the (arbitrary) loop state, available to the body
@@ -226,6 +363,9 @@ func (ex *Exec) execLoopInv(s ast.Stmt, cond ast.Expr, body *ast.BlockStmt, post
 	}
 	bodySt := head
 	bodySt.pc = ex.ts.And(head.pc, c)
+	if pre != nil {
+		pre(bodySt)
+	}
 	r := ex.execBlock(body.List, bodySt)
 	out.Returns = append(out.Returns, r.Returns...)
 	var keepB, keepC []Exit
@@ -274,6 +414,12 @@ func (ex *Exec) havocLike(prefix string, v Value, t types.Type, st *State) Value
 		return ex.ts.Fresh(prefix, x.Sort)
 	case *StructV, *ArrayV:
 		return ex.havocValue(prefix, t, st)
+	case *SliceV, *SymSliceV:
+		if sl, ok := t.Underlying().(*types.Slice); ok {
+			return ex.newSymSlice(st, prefix, sl.Elem())
+		}
+	case *StrV:
+		return &StrV{T: ex.ts.Fresh(prefix, IntSort)}
 	case *HeapRefV:
 		return &HeapRefV{Ref: ex.ts.Fresh(prefix, refSort), Cls: x.Cls}
 	case *MapV:
